@@ -13,8 +13,9 @@ variable {α : Type} [Add α] [Sub α] [Mul α] [Div α] [Neg α] [LT α] [LE α
 
 /-- one bus frame → `numChannels` interleaved samples (numChannels ≥ 1) -/
 def convertFrame (numChannels : Nat) (f : Frame α) : List α :=
-  let l := clamp f.left (-(1.0 : α)) (1.0 : α)
-  let r := clamp f.right (-(1.0 : α)) (1.0 : α)
+  -- NaN is replaced by silence before the clamp (`f32::clamp` lets NaN through)
+  let l := clamp (nanToZero f.left) (-(1.0 : α)) (1.0 : α)
+  let r := clamp (nanToZero f.right) (-(1.0 : α)) (1.0 : α)
   if numChannels = 1 then [KOps.r32 (KOps.r32 (l + r) / (2.0 : α))]
   else l :: r :: List.replicate (numChannels - 2) (0.0 : α)
 
